@@ -2,13 +2,14 @@
 import os
 HERE = os.path.dirname(os.path.abspath(__file__))
 VARS = ["ReadyCheckOnce", "RestartAll", "DrainCalls", "GracefulRepliesEarly", "IgnoreTimeout", "ForcedWaits", "LifoQueue", "DrainOnlyAtStop", "ErrKeepsPolling"]
-INVS = "C07_Fifo C07_AllAccounted C01_DrainReleases"
+INVS = "C07_Fifo C07_AllAccounted C07_QueuedMeansOwed C01_DrainReleases"
 
 
-def cfg(name, K, conns, nr, cp, ticks, stops, timeout, flip=None, edges=False, spec="Spec", props="Steps", invs=INVS):
+def cfg(name, K, conns, nr, cp, ticks, stops, timeout, flip=None, edges=False, spec="Spec", props="Steps", invs=INVS, per_poll=0, rewake=False):
     lines = ["CONSTANTS", "  K = %d" % K, "  MaxConns = %d" % conns, "  MaxNonReady = %d" % nr, "  MaxCreatePend = %d" % cp,
              "  MaxTicks = %d" % ticks, "  MaxStops = %d" % stops, "  Timeout = %d" % timeout]
     lines += ["  %s = %s" % (v, "TRUE" if v in (flip or []) else "FALSE") for v in VARS]
+    lines += ["  MaxPerPoll = %d" % per_poll, "  Rewake = %s" % ("TRUE" if rewake else "FALSE")]
     lines += ["SPECIFICATION " + spec]
     if spec == "Spec":
         lines += ["VIEW View"]
@@ -38,4 +39,8 @@ cfg("NEG_worker_IgnoreTimeout", 1, 1, 0, 0, 4, 1, 2, flip=["IgnoreTimeout"], spe
 cfg("NEG_worker_ForcedWaits", 1, 1, 0, 0, 4, 1, 2, flip=["ForcedWaits"])
 cfg("NEG_worker_DrainOnlyAtStop", 1, 2, 0, 0, 4, 1, 2, flip=["DrainOnlyAtStop"])
 cfg("NEG_worker_ErrKeepsPolling", 2, 1, 2, 0, 0, 0, 2, flip=["ErrKeepsPolling"])
+# a bounded batch per poll: without re-arming the wake-up the worker parks on a non-empty queue (NEG); with it the
+# refactoring is harmless (must hold)
+cfg("NEG_worker_BatchNoRewake", 1, 3, 0, 0, 0, 0, 2, per_poll=1, rewake=False, invs="C07_QueuedMeansOwed", props="")
+cfg("MC_worker_batch_rewake", 1, 3, 1, 0, 0, 0, 2, per_poll=1, rewake=True)
 print("worker configs written")
